@@ -4,9 +4,9 @@ CONSTANTS
   Peers = {1, 2, 3}
   MaxEpoch = 2
   Umasks = {18, 2, 63, 0}
-  DkgDbPerm = 432
+  DkgDbPerm = 384
   ChainDbPerm = 432
-  PreModes = {420, 438}
-INVARIANTS TypeOK NoSecretEmitted OnlyPublicOrEncrypted KeyFilesOwnerOnly SecretsOnlyInNamedFiles
+  PreModes = {420, 438, 416}
+INVARIANTS TypeOK NoSecretEmitted OnlyPublicOrEncrypted SecretFileOwnerOnly KeyFilesOwnerOnly SecretsOnlyInNamedFiles
 VIEW View
 CHECK_DEADLOCK FALSE
